@@ -106,7 +106,7 @@ static Step gen_owner(Rng &r, const std::string &bias, int force_kind = -1)
 	s.set("kid", r.chance(1, 6) ? r.range(4, 8) : r.range(0, 3)); // 4..8: long kids (255, 256, 257, 300, 2048 bytes)
 	s.set("kidn", r.range(0, 5));
 	s.set("use", r.chance(1, 2) ? 0 : r.range(0, 3));
-	s.set("ops", r.chance(1, 2) ? 0 : (int64_t)r.below(512));
+	s.set("ops", r.chance(1, 2) ? 0 : (int64_t)r.below(2048)); // bits 9, 10: array entries that are not strings
 	s.set("pad", r.chance(2, 3) ? 0 : r.range(1, 3));
 	s.set("ecmin", r.chance(1, 4) ? 1 : 0);
 	s.set("extra", r.chance(1, 2) ? 0 : (int64_t)r.below(64));
@@ -679,9 +679,15 @@ static Owner make_owner(World &w, const Step &s, uint64_t salt)
 		break;
 	}
 	int64_t ops = s.I("ops");
-	for (size_t i = 0; i < ARRAY_LEN(KEY_OPS); i++)
+	// entries that are not strings (a number ahead of everything, a null in the middle) name no operation: the ones around them count
+	if (ops & 512)
+		opts.key_ops.push_back("\x01" "7");
+	for (size_t i = 0; i < ARRAY_LEN(KEY_OPS); i++) {
 		if (ops & (1 << i))
 			opts.key_ops.push_back(KEY_OPS[i]);
+		if (i == 3 && (ops & 1024))
+			opts.key_ops.push_back("\x01" "null");
+	}
 	if (ops & 256)
 		opts.key_ops.push_back("customOp");
 	opts.pad_zeros = o.kind == 1 || o.kind == 2 ? (int)s.I("pad") : 0;
